@@ -158,6 +158,10 @@ contract(
                               "min_segment_length <= result[1][q][1] - result[1][q][0] and result[1][q][1] - result[1][q][0] <= max_segment_length)",
         "point_lengths": "forall(range(len(result[2])), lambda q: 0 <= result[2][q][0] and result[2][q][1] == result[2][q][0] + 1 and result[2][q][1] <= n)",
         "fitted_on_X": "collective_saving._is_fitted == True and collective_saving.ghost_n == n and point_saving._is_fitted == True and point_saving.ghost_n == n",
+        # C04: collective and point anomalies are pairwise disjoint (both lists are produced back to front)
+        "disjoint": "forall(range(len(result[1])), range(len(result[2])), lambda q, r: result[1][q][1] <= result[2][r][0] or result[2][r][1] <= result[1][q][0]) and "
+                    "forall(range(len(result[1])), range(len(result[1])), lambda q, r: implies(q < r, result[1][r][1] <= result[1][q][0])) and "
+                    "forall(range(len(result[2])), range(len(result[2])), lambda q, r: implies(q < r, result[2][r][1] <= result[2][q][0]))",
         # re-evaluating the reported anomalies under the same penalties gives exactly the final score (C03)
         "reevaluation": "CG(collective_saving.ghost_tok, point_saving.ghost_tok, n) == "
                         "LSUM('coll', result[1], len(result[1]), lambda x: PSC(collective_saving.ghost_tok, x[0], x[1], collective_alpha, ZEROS1())) + "
@@ -186,6 +190,9 @@ contract(
         # with ignore_point_anomalies no length-1 interval is reported (min_segment_length >= 2)
         "ignore_point_anomalies": "implies(self.ignore_point_anomalies, forall(range(len(payload(result))), lambda q: "
                                   "self.min_segment_length <= payload(result)[q][1] - payload(result)[q][0]))",
+        # C04: the merged list of collective and point anomalies is sorted and pairwise disjoint, every interval non-empty
+        "sorted_disjoint": "forall(range(len(payload(result))), range(len(payload(result))), lambda a, b: implies(a < b, payload(result)[a][1] <= payload(result)[b][0]))",
+        "non_empty": "forall(range(len(payload(result))), lambda q: payload(result)[q][0] < payload(result)[q][1])",
     },
     props=["C03", "C04", "C10"],
 )
@@ -210,6 +217,8 @@ contract(
               "self._anomaly_score.min_size <= self.min_segment_length", "self.max_interval_length >= 2 * self.min_segment_length",
               "self.growth_factor > 1", "self.growth_factor <= 2"],
     raises={"ValueError": "HASNAN(X) or n < 2 * self.min_segment_length"},
+    modifies={"self.scores": "any", **_FITM("self._anomaly_score")},
+    returns="frame:list[(int,int)]",
     ensures={
         "anomalies_wellformed": "forall(range(len(payload(result))), lambda q: 1 <= payload(result)[q][0] and "
                                 "payload(result)[q][0] + self.min_segment_length <= payload(result)[q][1] and payload(result)[q][1] <= n - 1) and "
